@@ -13,7 +13,7 @@ import (
 func init() {
 	register(stream{
 		name: "glob",
-		rule: "every (pattern, string) pair over the alphabet {a,b,*,\\} with |pattern| ≤ N and |string| ≤ N (N=4 quick, 5 thorough), evaluated through policy.Like + Policy.Match on a string node, plus random longer pairs and multi-byte UTF-8. Added later: every statement is also matched as decoded from its own IPLD and DAG-JSON form, and again on the first object after it matched other strings. Every pair over the bytes {0xff,0xfe,0xe2,0x82,0xac,*} up to length 3 (bytes that are not UTF-8, one character taken apart) plus the replacement character: the match is on bytes (no DAG-JSON leg for patterns that are not UTF-8). Non-trivial = the pattern contains a wildcard or an escape. Distinct = distinct protocol lines.",
+		rule: "every (pattern, string) pair over the alphabet {a,b,*,\\} with |pattern| ≤ N and |string| ≤ N (N=4 quick, 5 thorough), evaluated through policy.Like + Policy.Match on a string node, plus random longer pairs and multi-byte UTF-8. Added later: every statement is also matched as decoded from its own IPLD and DAG-JSON form, and again on the first object after it matched other strings. Every pair over the bytes {0xff,0xfe,0xe2,0x82,0xac,*} up to length 3 (bytes that are not UTF-8, one character taken apart) plus the replacement character: the match is on bytes (no DAG-JSON leg for patterns that are not UTF-8). One text cut into (pattern, string) at two places, the two pairs matched one right after the other, in both orders. Non-trivial = the pattern contains a wildcard or an escape. Distinct = distinct protocol lines.",
 		run:  runGlobStream,
 		eval: evalGlob,
 		cmp: func(line, g, m string) string {
@@ -100,6 +100,31 @@ func runGlobStream(c *ctx) error {
 			for _, s := range subjects {
 				c.emitG("glob.like "+hxs(p)+" "+hxs(s), "glob.Match", func(string) bool { return strings.ContainsAny(p, "*\\") },
 					func(g string) []string { return []string{"like-bytes:" + g} })
+			}
+		}
+	}
+	// one text cut into (pattern, string) at two different places, the two pairs evaluated one right after the other, in
+	// both orders (over different letters, so that each order meets its texts for the first time): the outcome of a match is
+	// a function of (pattern, string), not of their concatenation nor of what was matched before
+	{
+		var words []string
+		allStrings("cd*\\", n, func(s string) { words = append(words, s) })
+		one := func(p, s string) {
+			c.emitG("glob.like "+hxs(p)+" "+hxs(s), "glob.Match", func(string) bool { return strings.ContainsAny(p, "*\\") },
+				func(g string) []string { return []string{"like-cut:" + g} })
+		}
+		for _, w := range words {
+			if !strings.Contains(w, "*") {
+				continue
+			}
+			v := strings.NewReplacer("c", "e", "d", "f").Replace(w)
+			for i := 0; i <= len(w); i++ {
+				for j := i + 1; j <= len(w); j++ {
+					one(w[:i], w[i:])
+					one(w[:j], w[j:])
+					one(v[:j], v[j:])
+					one(v[:i], v[i:])
+				}
 			}
 		}
 	}
